@@ -125,7 +125,8 @@ def work_valid(job):
 
 
 def work_prefix(job):
-    name, data, points, w2c2 = job
+    name, data, points, w2c2 = job[:4]
+    popts = list(job[4]) if len(job) > 4 else []
     wd = tempfile.mkdtemp(prefix='c10p.', dir='/dev/shm')
     counts = {}
     bad = []
@@ -133,7 +134,7 @@ def work_prefix(job):
     changes = 0
     try:
         for k in points:
-            kind, msg = run_w2c2(w2c2, wd, data[:k], [], timeout=60)
+            kind, msg = run_w2c2(w2c2, wd, data[:k], popts, timeout=60)
             counts[kind] = counts.get(kind, 0) + 1
             cur = (kind, msg)
             if cur != prev:
@@ -215,11 +216,19 @@ def main(tier):
         for part in chunks(pts, 200):
             pjobs.append((n, d, part, w2c2))
         nprefix += len(pts)
+        # options that switch on further parsing: -g reads the name section (and debug sections) of the truncated file
+        if b'\x04name' in d:
+            for po in ([['-g']] if tier == 'quick' else [['-g'], ['-g', '-f', '1', '-t', '2'], ['-g', '-p', '-m']]):
+                for part in chunks(pts, 200):
+                    pjobs.append((n, d, part, w2c2, po))
+                nprefix += len(pts)
     with ProcessPoolExecutor(NCPU) as ex:
         presults = list(ex.map(work_prefix, pjobs, chunksize=1))
     pclasses = {}
     changes = 0
-    for (name, data, pts, _), (counts, bad, ch) in zip(pjobs, presults):
+    for pj, (counts, bad, ch) in zip(pjobs, presults):
+        name, data, pts = pj[:3]
+        popts = list(pj[4]) if len(pj) > 4 else []
         changes += ch
         for k, v in counts.items():
             pclasses[k] = pclasses.get(k, 0) + v
@@ -229,8 +238,8 @@ def main(tier):
             if key in seen:
                 continue
             seen.add(key)
-            chk.violation(key, {'kind': 'translator', 'module': name, 'options': [], 'class': kind, 'message': msg, 'wasm_hex': data.hex() if len(data) < 40000 else None, 'prefix': k,
-                                'replay_module': 'c10.py'}, 'prefix %d of %s (%d bytes): %s %s' % (k, name, len(data), kind, msg))
+            chk.violation(key, {'kind': 'translator', 'module': name, 'options': popts, 'class': kind, 'message': msg, 'wasm_hex': data.hex() if len(data) < 40000 else None, 'prefix': k,
+                                'replay_module': 'c10.py'}, 'prefix %d of %s (%d bytes)%s: %s %s' % (k, name, len(data), (' with options ' + ' '.join(popts)) if popts else '', kind, msg))
     chk.add(evaluations=nprefix)
     chk.cov['distinct_nontrivial'] = changes + sum(1 for j in jobs)
     chk.cov['valid_runs'] = nvalid
@@ -239,7 +248,7 @@ def main(tier):
     chk.cov['prefix_run_classes'] = pclasses
     chk.cov['rule'] = ('(a) every valid module of the corpus (spec-suite modules, hand-built, name-stress: 20 names x 4 positions, size-stress: 5) x option sets '
                        '(8 representative sets each; the full 384-element option product on the hand-built modules) must exit 0 without signal or sanitizer report; '
-                       '(b) fault points = every proper prefix 0<k<len of every module <= 4 KiB (boundary +-2 for larger): terminates, no sanitizer report, no '
+                       '(b) fault points = every proper prefix 0<k<len of every module <= 4 KiB (boundary +-2 for larger), modules with a name section also under -g (thorough: + -g -f 1 -t 2, -g -p -m): terminates, no sanitizer report, no '
                        'SIGSEGV/SIGBUS/SIGFPE/SIGILL; own abort()/assert on a truncated file is tolerated and counted. distinct_nontrivial = (module, k) whose '
                        'termination class or diagnostic differs from that of prefix k-1, plus distinct (module, option-set-group) jobs')
     chk.sample({'prefix': 'i32.0.wasm[:77]', 'class': 'diag'})
